@@ -229,15 +229,21 @@ func (v *vbint) UnmarshalBinary(data []byte) error {
 	}
 	var multiplier uint = 1
 	var value uint
+	var complete bool
 	for _, encodedByte := range data {
 		value += uint(encodedByte) & uint(127) * multiplier
 		if multiplier > 128*128*128 {
 			return unmarshalErr(v, "", "size exceeded")
 		}
 		if encodedByte&128 == 0 {
+			complete = true
 			break
 		}
 		multiplier = multiplier * 128
+	}
+	if !complete {
+		// data ended on a byte with the continuation bit set
+		return unmarshalErr(v, "", "missing data")
 	}
 	*v = vbint(value)
 	return nil
